@@ -54,6 +54,9 @@ void thread_entry_1() { do_locker<1>(MODE1); }
 #if NT > 2
 void thread_entry_2() { do_locker<2>(MODE2); }
 #endif
+#if NT > 3
+void thread_entry_3() { do_locker<3>(MODE3); }
+#endif
 NOINL void world_init() { new (&L.v) RW(); }
 NOINL void world_final(uint32_t all_done, uint32_t stuck)
 {
